@@ -243,6 +243,10 @@ def main():
             from vlib import ob as OB
 
             pts = ob.grid(OB.SEED) if ob.grid else []
+            if ob.engine == "X":
+                # grid points inside an active known-finding region are expected to fail: they are not validation points
+                regs = _regions(ob, json.loads(a.exclude))
+                pts = [p for p in pts if not any(r(p) for r in regs)]
             runs = [run_native(ob, p) for p in pts]
             if ob.replay is not None:
                 # validation pass: the independent replay (second renderer / public API / external oracle) must agree on in-bound points
